@@ -24,5 +24,5 @@ def _cfg(rng, cfg):
     cfg["fk_on"] = rng.random() < 0.6      # with enforcement off a wrong or missing statement shows up as a row mismatch instead of an error
 
 
-gen_case = _orm.make_gen({"follow": 5, "delete": 4, "tag_add": 3}, _cfg)
+gen_case = _orm.make_gen({"follow": 5, "delete": 4, "tag_add": 3, "set_k": 4, "k_rename": 3, "bulk": 1, "m_ops": 1}, _cfg)
 run_case = _orm.make_run(("C30",))
